@@ -62,13 +62,13 @@ Fixpoint idents_tail (fuel : nat) (s : str) : list ident * str :=
   match fuel with
   | O => ([], s)
   | S f =>
-    match s with
-    | 46 :: r =>
+    match lit1 46 s with
+    | Some r =>
       match identifier r with
       | Some (i, r') => let '(l, r'') := idents_tail f r' in (i :: l, r'')
       | None => ([], s)
       end
-    | _ => ([], s)
+    | None => ([], s)
     end
   end.
 Definition idents1 (s : str) : option (list ident * str) :=
@@ -79,10 +79,10 @@ Definition idents1 (s : str) : option (list ident * str) :=
 
 (** [pre_release()]: [preceded(opt(literal("-")), separated(1.., ..))]. *)
 Definition pre_release (s : str) : option (list ident * str) :=
-  idents1 (match s with 45 :: r => r | _ => s end).
+  idents1 (opt_lit1 45 s).
 (** [build()]: [preceded(literal("+"), separated(1.., ..))]. *)
 Definition build_meta (s : str) : option (list ident * str) :=
-  match s with 43 :: r => idents1 r | _ => None end.
+  match lit1 43 s with Some r => idents1 r | None => None end.
 
 (** [extras()]: [opt(alt(((pre_release, build), pre_release, build)))]; never fails. *)
 Definition extras (s : str) : list ident * list ident * str :=
@@ -100,7 +100,7 @@ Definition extras (s : str) : list ident * list ident * str :=
   end.
 
 Definition dot (s : str) : pr unit :=
-  match s with 46 :: r => POk tt r | _ => PErr (perr_at s) end.
+  match lit1 46 s with Some r => POk tt r | None => PErr (perr_at s) end.
 
 (** [version_core()]. *)
 Definition version_core (s : str) : pr (N * N * N) :=
@@ -129,7 +129,7 @@ Definition version_core (s : str) : pr (N * N * N) :=
 (** [version()]: [opt(alt(("v","V")))], [space0], core, extras. *)
 Definition version_p (s : str) : pr version :=
   with_ctx CVersion
-  (let s1 := match s with 118 :: r => r | 86 :: r => r | _ => s end in
+  (let s1 := match lit1 118 s with Some r => r | None => opt_lit1 86 s end in
    let s2 := space0 s1 in
    match version_core s2 with
    | PErr e => PErr e
